@@ -56,6 +56,20 @@ CHECKS = {
    note="fixed 15-node tree, 22 segment spellings x <= 4 segments, file sizes 0..4 and the listed header value classes; POSIX "
         "only; no stat/open races; bodies via the loop.sendfile fallback or the NOSENDFILE path, never kernel sendfile; one "
         "request per connection; pathlib/the kernel are ground truth for what a path resolves to; " + TRUST),
+ "C20": dict(
+   technique="Exhaustive TLC model checking of two implementation-shaped TLA+ models (AppLifecycle.tla: all fault masks x entry "
+             "points; ServerShutdown.tla: all placements of the shutdown moment over connection phases under virtual time); "
+             "every initial state replayed into the real Application/AppRunner/run_app and AppRunner/Server/RequestHandler "
+             "(plus seeded random placements) and every recorded execution judged by the TLC trace monitors "
+             "AppLifecycleTrace.tla / ServerShutdownTrace.tla",
+   text="The life-cycle and shutdown designs satisfy all C20 clauses (ExactlyOnceIffStarted, ReverseOrder, ErrorsSurface; "
+        "NoNewRequests, IdleClosedAtOnce, GraceRespected, CancelledBy2T, AllClosedAtReturn) for every bounded fault mask, entry "
+        "point and placement; all 2,688 / 1,764 model initial states (quick) and 1,500 random placements are executed on the "
+        "real code and validated by TLC; the six deviations found on the original tree were repaired and are re-detected if they return.",
+   design_ref="DESIGN.md §4 C20",
+   note="app tree = root + one sub-app with two contexts each, <= 1 (quick) / 2 (thorough) failing start-up steps; GracefulExit "
+        "raised by a loop callback (no OS signals, no gunicorn); part B on in-memory transports with a recording BaseSite, scripted "
+        "handler durations, T=2 virtual ticks (random driver up to T=6); eager task start not reproduced by the stepping loop; " + TRUST),
 }
 
 NA_REASON = "check not built yet (in progress)"
